@@ -177,13 +177,9 @@ func (s *c03SB) DeletePPPoESessionAsync(sessionID uint16, clientIP net.IP, clien
 }
 
 func (s *c03SB) PPPoESetSessionIPv6Async(swIfIndex uint32, clientIP net.IP, isAdd bool, callback func(error)) {
-	who := "?"
-	for i, x := range s.h.sess {
-		if x != nil && x.SwIfIndex == swIfIndex {
-			who = strconv.Itoa(i)
-		}
-	}
-	s.h.emit(who, map[bool]string{true: "sb6+", false: "sb6-"}[isAdd])
+	// the binding is made by the DHCPv6 worker started for the frame the harness is delivering (sessions that are
+	// not programmed yet all carry the punt interface index, so the index does not identify the session)
+	s.h.emit(strconv.Itoa(s.h.curSlot), map[bool]string{true: "sb6+", false: "sb6-"}[isAdd])
 	callback(nil)
 }
 
@@ -232,6 +228,7 @@ type c03Harness struct {
 	monOK   [3]bool
 	monViol string
 	hook    *c03LogHook
+	curSlot int
 }
 
 func c03Service(tok string) bool {
@@ -672,6 +669,7 @@ func (h *c03Harness) sendFrame(i int, proto, kind string) {
 		h.emit(strconv.Itoa(i), "badframe:"+proto+":"+kind)
 		return
 	}
+	h.curSlot = i
 	pkt := &dataplane.ParsedPacket{
 		Protocol: models.ProtocolPPPoESession, MAC: h.macs[i], OuterVLAN: 100, SwIfIndex: 10,
 		PPPoE: &layers.PPPoE{Version: 1, Type: 1, Code: layers.PPPoECodeSession, SessionId: s.PPPoESessionID},
@@ -697,6 +695,7 @@ func (h *c03Harness) raced(i int, proto, kind string, k int, akind string) {
 		h.emit(strconv.Itoa(i), "badframe:"+proto+":"+kind)
 		return
 	}
+	h.curSlot = i
 	h.c.sessionMu.RLock()
 	live := h.c.sidIndex[s.PPPoESessionID] == s
 	h.c.sessionMu.RUnlock()
